@@ -368,7 +368,8 @@ def build(tier):
                         'implicit member destruction (~tensor_vector_storage_t has no statement in the AST), allocation failure (std::bad_alloc path)', 'summed-area table VALUES: rank 3; the border cells of rank 2 (row 0 / column 0, where the recurrence has fewer terms); the region-sum formula as such (it follows from the recurrence by '
                         'telescoping: an induction over the region that is not mechanised here); floating-point outputs',
                         'Eigen Map construction itself (map_vector / map_matrix / map_tensor are constructors: their result is modelled as (pointer, extent))',
-'tensor.h numeric helpers (zero, full, random, min, max, ... : Eigen expressions over vector())'],
+'tensor.h numeric helpers (zero, full, random, min, max, ... : Eigen expressions over vector())',
+                        'include/nano/tensor/stack.h (stack: the copied blocks tile the destination) -- not under contract yet'],
         'assumptions': ['tensor invariant: every extent >= 0 and every suffix product of the extents <= 2^62 (precondition, reported)',
                         'template arguments of calls inside templates are read from the source text and evaluated under the instantiation bindings',
                         'std::accumulate over a std::array range (wplib, used only if the source calls it): [accumulate] semantics with the accumulator of the type of init, the partial result '
